@@ -1,5 +1,5 @@
 """C01 -- EQL answers are exactly the satisfying assignments.  Model Eql/Eval.v (hand-written, variable level), Spec
-Eql/Sat.v, theorems Props/C01.v; tie: differential execution of implementation / model / Spec on generated queries
+Eql/Sat.v, theorems Props/C01.v; flatten / nested sub-queries: model Eql/EvalDep.v, Spec Eql/EvalDepSpec.v, theorems Props/C01b.v; tie: differential execution of implementation / model / Spec on generated queries
 built through the public API (let, entity, set_of, and_, or_, not_, contains, comparison operators, attribute chains, indexing, method calls, exists, for_all)."""
 from __future__ import annotations
 
@@ -15,6 +15,9 @@ def run(tier: str, seed: int, replay=None) -> int:
         in_fragment=lambda c: eqlcheck.FRAG.get(eqlcheck.case_key(c), False),
         modelled_classes=["K_emptydom", "K_emptyflat", "K_quant_nofalse", "K_forall_open", "K_quant_shadow"],
         trusted=[
+            "hand-written model Eql/EvalDep.v of Flatten (DomainMapping._evaluate__ + Flatten._apply_mapping_), of a ResultQuantifier over an Entity used as an operand "
+            "(ResultQuantifier._evaluate__, QueryObjectDescriptor._evaluate__ / get_constrained_values / evaluate_selected_variables), of what Comparator.get_first_second_operands, "
+            "optimize_or and Exists.other_variable_ids see of such nodes (their Variable instances / the Flatten nodes below), tied by differential execution (rows compared as sets; as sequences they agree too)",
             "hand-written model Eql/Eval.v of symbolic.py (Variable/Literal/Attribute/Comparator/AND/ElseIf/Union/Not/Exists/ForAll, "
             "QueryObjectDescriptor selection by nested loops under one assignment), tied by differential execution through the public API; for the logical operators "
             "and the decisions of or_/not_ the tie is additionally by translation: translator/t_symeval.py (generator bodies of "
@@ -28,10 +31,10 @@ def run(tier: str, seed: int, replay=None) -> int:
         assume=[
             "queries are tree-shaped: every Attribute/Comparator/logical node object occurs once (node reuse is finding class K_sharednode, replayed from its witness)",
             "vocabulary modelled: variables over explicit domains, literals, attribute chains, ==,!=,<,<=,>,>=, contains/in_, and_, or_, not_, entity/set_of; "
-            "exists/for_all are covered by the theorems under the static side conditions wfq / ok TS / ok TC (Props/C01.v: C01_q_sound_complete); the proved fragment of every generated case is the flag case_in_F01 COMPUTED IN COQ (theorem C01_fragment_flag), not a Python predicate; indexing and method calls on attribute values are modelled as one attribute step (functions of the value); flatten and nested sub-queries used as operands / selected expressions have NO Coq model: every eighth generated case each is such a query (harness/eqlgen.py gen_flat_case / gen_subq_case), compared implementation vs the first-order Spec only (z = flatten(e) is a variable with the conjunct contains(e, z); z = an(entity(z0, c)) is a variable over z0's domain with the conjunct c), outside every proved fragment, any disagreement is a VIOLATION; predicates are C12, match is C11",
+            "exists/for_all are covered by the theorems under the static side conditions wfq / ok TS / ok TC (Props/C01.v: C01_q_sound_complete); the proved fragment of every generated case is the flag case_in_F01 COMPUTED IN COQ (theorem C01_fragment_flag), not a Python predicate; indexing and method calls on attribute values are modelled as one attribute step (functions of the value); flatten(e) and nested sub-queries z = an(entity(z0, c)) used as operands / selected expressions are GENERATED variables of the model Eql/EvalDep.v (the evaluator of Eql/Eval.v with the evaluation of a variable abstracted; with no declaration it IS that evaluator: C01b_conservative_eval / _run) with Spec Eql/EvalDepSpec.v and theorems Props/C01b.v (C01b_sound_complete for every quantifier-free main and sub-query condition, any selection, flatten of flatten; side condition: no variable can be left without a value -- empty domain / empty flattened collection / sub-query without answer are findings C01-h / C01-h2, C01b_refuted_emptyflat / _emptysub); every eighth generated case each is such a query (harness/eqlgen.py gen_flat_case / gen_subq_case, plus collections that may be empty, sub-queries that may have no answer, collections of value-equal twins), classified three ways like the ordinary cases: inside the flag dcase_in_FD COMPUTED IN COQ (theorem C01b_fragment_flag) implementation = Spec or VIOLATION and model = implementation (obligation correspondence:model-dep); outside it (exists over a flattened collection; the empty-range class) a disagreement is tolerated only for the listed open classes K_emptyflat / K_emptydom with implementation = model, anything else is a VIOLATION; the Spec\'s rows are additionally cross-checked on every such case against the first-order reading evaluated by the plain Spec Eql/Sat.v (z = flatten(e): a variable with the conjunct contains(e, z); z = an(entity(z0, c)): a variable over z0\'s domain with the conjunct c; obligation correspondence:dep-spec = spec_case; not applicable to collections of value-equal twins, where contains compares with ==); assumed for these constructs: a flatten / sub-query node is not used as the variable of for_all or as a bare condition (its truth flag is then refreshed), sub-query conditions do not quantify; predicates are C12, match is C11",
             "CPython generator protocol",
         ],
         rule=("seeded random queries (harness/eqlgen.py, profile c01): 1-3 variables over object / value-equal-twin / int domains of 0-4 "
               "elements (empty domains, duplicates, shared domains), conditions of depth <= 3 over comparisons, membership, set-equality "
               "of collections, object identity, and_/or_/not_; 1-3 selected expressions; compared as SETS of rows against the Spec "
-              "(and against the model); plus flatten and sub-query cases (Spec only). distinct = distinct (world, domains, query); non-trivial = has a condition and a non-empty answer set"))
+              "(and against the model); plus flatten and sub-query cases (three-way against Eql/EvalDep.v / Eql/EvalDepSpec.v, fragment flag computed in Coq). distinct = distinct (world, domains, query); non-trivial = has a condition and a non-empty answer set"))
